@@ -93,6 +93,43 @@ func checkC03ExprR(c c03Expr, reached *bool) *evid.Fail {
 			res.Msg = fmt.Sprintf("%q: %s", c.Text, res.Msg)
 			return
 		}
+		// the caller takes entries out of the calculator's own collections between two evaluations (the variables one
+		// by one from the end, by name as written and by position; then a function): whatever is missing is an error
+		for dv := calc.DefaultVariables(); dv.Length() > 0; {
+			last := dv.Get(dv.Length() - 1)
+			if dv.Length()%2 == 0 {
+				dv.RemoveByName(last.Name())
+			} else {
+				dv.Remove(0)
+			}
+			v, err = calc.Evaluate()
+			if res = exactlyOne("Evaluate after the caller removed a default variable", v, err); res != nil {
+				res.Msg = fmt.Sprintf("%q: %s", c.Text, res.Msg)
+				return
+			}
+		}
+		if calc.SetExpression(c.Text) == nil { // the same text again on the emptied collection
+			v, err = calc.Evaluate()
+			if res = exactlyOne("Evaluate after the default variables were removed and the expression set again", v, err); res != nil {
+				res.Msg = fmt.Sprintf("%q: %s", c.Text, res.Msg)
+				return
+			}
+		}
+		for _, name := range []string{"max", "IF", "Array", "Sum"} {
+			calc.DefaultFunctions().RemoveByName(name)
+		}
+		v, err = calc.Evaluate()
+		if res = exactlyOne("Evaluate after the caller removed default functions", v, err); res != nil {
+			res.Msg = fmt.Sprintf("%q: %s", c.Text, res.Msg)
+			return
+		}
+		calc.DefaultFunctions().Clear()
+		calc.DefaultVariables().Clear()
+		v, err = calc.Evaluate()
+		if res = exactlyOne("Evaluate after the caller cleared the default collections", v, err); res != nil {
+			res.Msg = fmt.Sprintf("%q: %s", c.Text, res.Msg)
+			return
+		}
 		// automatic variables switched off before the first expression, no collection passed
 		strict := calculator.NewExpressionCalculator()
 		strict.SetAutoVariables(false)
@@ -159,6 +196,13 @@ func checkC03TmplR(c c03Tmpl, reached *bool) *evid.Fail {
 			t3.EvaluateWithVariables(nil)
 			t3.Clear()
 			t3.Evaluate()
+		}
+		// an object that was cleared is as good as new: the template again, with automatic variables, and rendered
+		t.Clear()
+		t.Evaluate()
+		if t.SetTemplate(c.Text) == nil {
+			t.Evaluate()
+			t.EvaluateWithVariables(c.Map)
 		}
 	}); g != nil {
 		g.Msg = fmt.Sprintf("template %q with %s: %s", c.Text, sortedMap(c.Map), g.Msg)
